@@ -262,7 +262,7 @@ func TestC06(t *testing.T) {
 			if !l.Dead {
 				if reached < 0 {
 					sig := name + ":floor-not-reached"
-					if kind == 1 && float64(l.Mult)*l.EstFloat() <= 2 {
+					if kind == 1 && float64(l.Mult)*l.EstFloat() < 4 {
 						sig += ":every-sample-probes" // known finding F19
 					}
 					c.violate(sig, fmt.Sprintf("%d sustained drops from estimate %v did not reach the floor (now %d)", bound, est0, l.Outer.EstimatedLimit()))
@@ -394,7 +394,7 @@ func TestC07(t *testing.T) {
 			if kind != 0 && !l.Dead {
 				if reached < 0 && !(kind == 2 && l.Interval > 0) {
 					sig := name + ":no-recovery"
-					if kind == 1 && float64(l.Mult)*l.EstFloat() <= 2 {
+					if kind == 1 && float64(l.Mult)*l.EstFloat() < 4 {
 						sig += ":every-sample-probes" // known finding F19
 					}
 					c.violate(sig, fmt.Sprintf("%d healthy saturated samples from estimate %d did not bring the estimate within one of the ceiling %d (now %d)", bound, est0, ceil, p2(l)))
